@@ -80,6 +80,37 @@ def Stream.tryAdd (s : Stream) (m : Nat) : Stream × Bool :=
   else if s.queue.length + 1 > s.cap then (s, false)
   else ({ s with queue := s.queue ++ [m], accepted := s.accepted ++ [m] }, true)
 
+
+/-! ### writer / environment transitions of one stream object (self-guarded) -/
+
+/-- `queue.WaitOne` hands the head of the buffer to `MsgSend` -/
+def Stream.takeStep (s : Stream) : Stream :=
+  if s.writerDone ∨ s.inflight.isSome ∨ s.cancelled then s
+  else match s.queue with
+    | [] => s
+    | m :: rest => { s with queue := rest, inflight := some m, sendCalls := s.sendCalls + 1 }
+
+/-- does the pending `MsgSend` return an error? (remote closed, or the scripted failing write) -/
+def Stream.sendFails (s : Stream) : Bool := s.closed || (s.failAt != 0 && s.sendCalls == s.failAt)
+
+/-- `MsgSend` returns: nil (delivered) or an error (→ `streamClose`, writer exits) -/
+def Stream.completeStep (s : Stream) : Stream :=
+  match s.inflight with
+  | none => s
+  | some m =>
+    if s.sendFails then { s with inflight := none, writerDone := true, closed := true }
+    else { s with inflight := none, delivered := s.delivered ++ [m] }
+
+/-- the writer's `WaitOne(peerCtx)` returns the context error → `streamClose`, writer exits -/
+def Stream.ctxCloseStep (s : Stream) : Stream :=
+  if s.writerDone ∨ s.inflight.isSome ∨ !s.cancelled then s
+  else { s with writerDone := true, closed := true }
+
+/-- the writer's `WaitOne` returns `ErrClosed` (closed and empty queue) → writer exits -/
+def Stream.writerExitStep (s : Stream) : Stream :=
+  if s.writerDone ∨ s.inflight.isSome ∨ s.cancelled ∨ !s.closed ∨ s.queue ≠ [] then s
+  else { s with writerDone := true }
+
 /-! ## pool -/
 
 structure Task where
@@ -165,10 +196,15 @@ def Pool.add (p : Pool) (peer capRaw : Nat) (gated : Bool) (failAt : Nat) (tags 
   ({ p with lastId := id, objs := p.objs ++ [st], streams := p.streams ++ [id],
             byPeer := idxAppend p.byPeer peer id, byTag := idxAppendAll p.byTag tags id }, id)
 
+/-- the `seen` map of `Broadcast`: keep the first occurrence of every id -/
+def dedup : List Nat → List Nat → List Nat
+  | _, [] => []
+  | seen, x :: rest => if x ∈ seen then dedup seen rest else x :: dedup (x :: seen) rest
+
 /-- ids collected by `Broadcast` under the lock (`seen` only exists when `len(tags) > 1`) -/
 def Pool.broadcastIds (p : Pool) (tags : List Nat) : List Nat :=
   let all := (tags.map p.byTag.get).flatten
-  if tags.length > 1 then all.eraseDups else all
+  if tags.length > 1 then dedup [] all else all
 
 def Pool.snapshot (p : Pool) (m : Nat) (groups : List (List Nat)) : Pool :=
   let missing := groups.flatten.any (fun id => !(p.streams.contains id))
@@ -189,9 +225,7 @@ def Pool.snapSendById (p : Pool) (m : Nat) (peers : List Nat) : Pool × Res :=
 def Pool.writeTo (p : Pool) (sid m : Nat) : Pool × Bool :=
   match getObj p.objs sid with
   | none => (p, false)
-  | some s =>
-    let r := s.tryAdd m
-    ({ p with objs := modObj p.objs sid (fun _ => r.1) }, r.2)
+  | some s => ({ p with objs := modObj p.objs sid (fun x => (x.tryAdd m).1) }, (s.tryAdd m).2)
 
 /-- what remains of a call's groups after one write to the head target with outcome `ok` -/
 def advance (groups : List (List Nat)) (ok : Bool) : List (List Nat) :=
@@ -263,12 +297,8 @@ def Pool.take (p : Pool) (sid : Nat) : Pool × Res :=
   match getObj p.objs sid with
   | none => (p, .disabled)
   | some s =>
-    if s.writerDone ∨ s.inflight.isSome ∨ s.cancelled then (p, .disabled)
-    else match s.queue with
-      | [] => (p, .disabled)
-      | m :: rest =>
-        ({ p with objs := modObj p.objs sid (fun s =>
-              { s with queue := rest, inflight := some m, sendCalls := s.sendCalls + 1 }) }, .ok)
+    if s.takeStep = s then (p, .disabled)
+    else ({ p with objs := modObj p.objs sid Stream.takeStep }, .ok)
 
 /-- `MsgSend` returns: nil (delivered) or an error (→ `streamClose`, writer exits) -/
 def Pool.complete (p : Pool) (sid : Nat) : Pool × Res :=
@@ -277,29 +307,23 @@ def Pool.complete (p : Pool) (sid : Nat) : Pool × Res :=
   | some s =>
     match s.inflight with
     | none => (p, .disabled)
-    | some m =>
-      if s.closed ∨ (s.failAt ≠ 0 ∧ s.sendCalls = s.failAt) then
-        ({ p with objs := modObj p.objs sid (fun s =>
-              { s with inflight := none, writerDone := true, closed := true }) }, .wrote sid false)
-      else
-        ({ p with objs := modObj p.objs sid (fun s =>
-              { s with inflight := none, delivered := s.delivered ++ [m] }) }, .wrote sid true)
+    | some _ => ({ p with objs := modObj p.objs sid Stream.completeStep }, .wrote sid (!s.sendFails))
 
 /-- the writer's `WaitOne(peerCtx)` returns the context error → `streamClose`, writer exits -/
 def Pool.ctxClose (p : Pool) (sid : Nat) : Pool × Res :=
   match getObj p.objs sid with
   | none => (p, .disabled)
   | some s =>
-    if s.writerDone ∨ s.inflight.isSome ∨ !s.cancelled then (p, .disabled)
-    else ({ p with objs := modObj p.objs sid (fun s => { s with writerDone := true, closed := true }) }, .ok)
+    if s.ctxCloseStep = s then (p, .disabled)
+    else ({ p with objs := modObj p.objs sid Stream.ctxCloseStep }, .ok)
 
 /-- the writer's `WaitOne` returns `ErrClosed` (closed and empty queue) → writer exits -/
 def Pool.writerExit (p : Pool) (sid : Nat) : Pool × Res :=
   match getObj p.objs sid with
   | none => (p, .disabled)
   | some s =>
-    if s.writerDone ∨ s.inflight.isSome ∨ s.cancelled ∨ !s.closed ∨ s.queue ≠ [] then (p, .disabled)
-    else ({ p with objs := modObj p.objs sid (fun s => { s with writerDone := true }) }, .ok)
+    if s.writerExitStep = s then (p, .disabled)
+    else ({ p with objs := modObj p.objs sid Stream.writerExitStep }, .ok)
 
 /-- the read loop ends (remote closed / handler error) → `streamClose` -/
 def Pool.readClose (p : Pool) (sid : Nat) : Pool × Res :=
@@ -355,17 +379,21 @@ def Pool.writeFirst (p : Pool) (m : Nat) : List Nat → Pool
     let r := p.writeTo sid m
     if r.2 then r.1 else Pool.writeFirst r.1 m rest
 
+/-- `getStreams` of `sendOne`: when the peer has no stream, one is opened through the handler -/
+def Pool.openIfMissing (p : Pool) (peer : Nat) : Pool :=
+  if p.byPeer.get peer = [] then
+    match lookupPlan p.openPlan peer with
+    | none => p
+    | some sp => (p.add peer sp.capRaw sp.gated sp.failAt sp.tags).1
+  else p
+
+/-- the write loop of `sendOne` over the streams of the peer -/
+def Pool.sendOneWrite (p : Pool) (m peer : Nat) : Pool :=
+  let q := p.writeFirst m (p.byPeer.get peer)
+  { q with nilDeref := q.nilDeref || (p.byPeer.get peer).any (fun id => !(p.streams.contains id)) }
+
 /-- `sendOne`: streams of the peer, opening one through the handler when there is none -/
-def Pool.sendOne (p : Pool) (m peer : Nat) : Pool :=
-  let p1 : Pool :=
-    if p.byPeer.get peer = [] then
-      match lookupPlan p.openPlan peer with
-      | none => p
-      | some sp => (p.add peer sp.capRaw sp.gated sp.failAt sp.tags).1
-    else p
-  let ids := p1.byPeer.get peer
-  let missing := ids.any (fun id => !(p1.streams.contains id))
-  p1.writeFirst m ids |> fun q => { q with nilDeref := q.nilDeref || missing }
+def Pool.sendOne (p : Pool) (m peer : Nat) : Pool := (p.openIfMissing peer).sendOneWrite m peer
 
 /-- the peer getter of running task `tid` returns and the closure runs to its end -/
 def Pool.dialRun (p : Pool) (tid : Nat) : Pool × Res :=
